@@ -120,24 +120,41 @@ def digitVal (c : Char) : Option Nat :=
   else if 'A' ≤ c ∧ c ≤ 'F' then some (c.toNat - 55)
   else none
 
-/-- a non-empty digit string in base `b`, most significant digit first -/
-def numeral (b : Nat) : List Char → Option Nat
-  | [] => none
-  | c :: cs => go cs (digitVal c |>.bind fun d => if d < b then some d else none)
-where
-  go : List Char → Option Nat → Option Nat
-    | _, none => none
-    | [], some acc => some acc
-    | c :: cs, some acc =>
-      go cs (match digitVal c with
-             | some d => if d < b then some (acc * b + d) else none
-             | none => none)
+/-- digits in base `b`, most significant first, accumulated onto `acc` -/
+def numeralGo (b : Nat) : List Char → Nat → Option Nat
+  | [], acc => some acc
+  | c :: cs, acc =>
+    match digitVal c with
+    | some d => if d < b then numeralGo b cs (acc * b + d) else none
+    | none => none
 
-/-- an unsigned IntegerLiteral body: `0x…` hexadecimal or decimal (no octal/binary/underscores:
-    the decompiler never prints them).  Returns (isHex, magnitude). -/
-def unsignedLit : List Char → Option (Bool × Nat)
-  | '0' :: 'x' :: ds => (numeral 16 ds).map fun n => (true, n)
-  | ds => (numeral 10 ds).map fun n => (false, n)
+/-- a non-empty digit string in base `b` -/
+def numeral (b : Nat) (cs : List Char) : Option Nat :=
+  match cs with
+  | [] => none
+  | _ => numeralGo b cs 0
+
+/-- DecimalNumeral: `0`, or a non-zero digit followed by digits (a leading `0` would be octal) -/
+def decimalNumeral (cs : List Char) : Option Nat :=
+  match cs with
+  | [] => none
+  | [c] => numeral 10 [c]
+  | c :: cs' => if c = '0' then none else numeral 10 (c :: cs')
+
+/-- split off an IntegerTypeSuffix (`L`/`l`, last character) -/
+def splitSuffix : List Char → List Char × Bool
+  | [] => ([], false)
+  | [c] => if c = 'L' ∨ c = 'l' then ([], true) else ([c], false)
+  | c :: cs => (c :: (splitSuffix cs).1, (splitSuffix cs).2)
+
+/-- an unsigned IntegerLiteral body: `0x…` hexadecimal or decimal (octal/binary/underscores are not
+    accepted: the decompiler never prints them).  Returns (isHex, magnitude). -/
+def unsignedLit (cs : List Char) : Option (Bool × Nat) :=
+  match cs with
+  | c0 :: c1 :: ds =>
+    if c0 = '0' ∧ (c1 = 'x' ∨ c1 = 'X') then (numeral 16 ds).map fun n => (true, n)
+    else (decimalNumeral cs).map fun n => (false, n)
+  | _ => (decimalNumeral cs).map fun n => (false, n)
 
 /-- value of `[-]IntegerLiteral` of width `w` (32 for int, 64 for long), JLS §3.10.1:
     a decimal literal may be at most 2^(w-1), and 2^(w-1) itself only as the operand of unary minus;
@@ -146,32 +163,31 @@ def intLitValue (w : Nat) (neg : Bool) (hex : Bool) (m : Nat) : Option Int :=
   if hex then
     if m < 2 ^ w then
       let v := sext w m
-      -- `-0x80000000` overflows back to itself; harmless, same rule as Java
+      -- `-0x80000000` overflows back to itself, as in Java
       some (if neg then (if v = -((2 ^ (w - 1) : Nat) : Int) then v else -v) else v)
     else none
   else if neg then (if m ≤ 2 ^ (w - 1) then some (-(m : Int)) else none)
   else (if m < 2 ^ (w - 1) then some (m : Int) else none)
 
-def stripL (cs : List Char) : List Char × Bool :=
-  match cs.reverse with
-  | 'L' :: r => (r.reverse, true)
-  | _ => (cs, false)
+/-- `[-]IntegerLiteral` without the sign: `neg` says whether a unary minus preceded it -/
+def numericLit (neg : Bool) (cs : List Char) : Option JVal :=
+  match unsignedLit (splitSuffix cs).1 with
+  | none => none
+  | some (hex, m) =>
+    if (splitSuffix cs).2 then (intLitValue 64 neg hex m).map .long
+    else (intLitValue 32 neg hex m).map .int
 
 /-- the value a printed initialiser denotes as Java source -/
 def javaLiteralValue (cs : List Char) : Option JVal :=
-  if cs = "true".toList then some (.bool true)
-  else if cs = "false".toList then some (.bool false)
-  else if cs = "null".toList then some .null
-  else
-    let (neg, body) := match cs with
-      | '-' :: r => (true, r)
-      | r => (false, r)
-    let (body, isLong) := stripL body
-    match unsignedLit body with
-    | none => none
-    | some (hex, m) =>
-      if isLong then (intLitValue 64 neg hex m).map .long
-      else (intLitValue 32 neg hex m).map .int
+  match cs with
+  | [] => none
+  | c :: r =>
+    if c = '-' then numericLit true r
+    else if c.isDigit then numericLit false cs
+    else if cs = "true".toList then some (.bool true)
+    else if cs = "false".toList then some (.bool false)
+    else if cs = "null".toList then some .null
+    else none
 
 /-- assignment conversion of a constant expression to the declared primitive type of the field
     (JLS §5.2): an `int` constant may initialise byte/short/char when it is in the type's range,
